@@ -36,6 +36,8 @@ PATCHES = {
     "custom2": {"custom": 2},  # a *different* value for an already stored dynamic attribute
     "out": {"address_out": OUT},
     "two": {"callsign": "x", "p2p_is_registered": True},
+    # NAT fields: the record is then *sent to* another address, it is still *matched by* the address it sends from
+    "nat_on": {"nat_enabled": True, "address_nat": ("10.0.0.2", 40000)},
 }
 PATCHES_ADDR = {
     "to_B": {"address_in": B},
@@ -354,11 +356,12 @@ def run(only=None):
     ]
     deadline = None
     # run 1: two colliding addresses (same IP), fix-point over the full alphabet
+    quick_patches = {k: PATCHES[k] for k in ("none", "callsign", "custom", "custom2", "nat_on")}
     runs = [
-        ("fixpoint_2addr", make_system([A, C], PATCHES), None),
+        ("fixpoint_2addr", make_system([A, C], PATCHES if rep.thorough() else quick_patches), None),
     ]
     if rep.thorough():
-        runs.append(("fixpoint_3addr", make_system([A, B, C], {k: PATCHES[k] for k in ("none", "callsign", "custom", "custom2", "two")}), None))
+        runs.append(("fixpoint_3addr", make_system([A, B, C], {k: PATCHES[k] for k in ("none", "callsign", "custom", "custom2", "two", "nat_on")}), None))
         runs.append(("addr_patch_depth5", make_system([A, B], {k: PATCHES[k] for k in ("none", "callsign")}, PATCHES_ADDR), 5))
         runs.append(("all_sequences_depth4_3addr_full", make_system([A, B, C], PATCHES), 4))
     else:
@@ -384,8 +387,8 @@ def replay(doc):
         # the configuration is part of the sub-check name
         name = doc["check"]
         cfgs = {
-            "fixpoint_2addr": make_system([A, C], PATCHES),
-            "fixpoint_3addr": make_system([A, B, C], {k: PATCHES[k] for k in ("none", "callsign", "custom", "custom2", "two")}),
+            "fixpoint_2addr": make_system([A, C], PATCHES),  # superset of the quick tier's patch pool
+            "fixpoint_3addr": make_system([A, B, C], {k: PATCHES[k] for k in ("none", "callsign", "custom", "custom2", "two", "nat_on")}),
             "addr_patch_depth5": make_system([A, B], {k: PATCHES[k] for k in ("none", "callsign")}, PATCHES_ADDR),
             "addr_patch_depth4": make_system([A, B], {k: PATCHES[k] for k in ("none", "callsign")}, PATCHES_ADDR),
             "all_sequences_depth4_3addr_full": make_system([A, B, C], PATCHES),
